@@ -50,6 +50,9 @@ pub enum Inv {
     /// fresh garbage in their outputs if `partial`.
     Kill(usize, bool),
     Restat(Vec<String>),
+    /// n2 dies while appending to the log: the last log write of the default
+    /// build persists only its first half.
+    Torn,
 }
 
 #[derive(Clone)]
@@ -91,6 +94,11 @@ fn st(out: &str, cmd: &str, ins: Vec<(EdgeKind, String)>) -> Step {
         ins,
         ..Default::default()
     }
+}
+
+/// Header names of about 210 bytes each.
+pub fn wide_headers(n: usize) -> Vec<String> {
+    (0..n).map(|i| format!("inc/{}_{:02}.h", "h".repeat(200), i)).collect()
 }
 
 pub fn templates() -> Vec<Template> {
@@ -135,9 +143,13 @@ pub fn templates() -> Vec<Template> {
             // from the log, after hdr.h instead of before it
             let mut v_notool = base.clone();
             v_notool.steps.retain(|s| s.outs[0] != "tool");
+            // v_cmd with another amount of blank between the words of the
+            // command: a different command (blanks can be data to the shell)
+            let mut v_cmd_ws = base.clone();
+            v_cmd_ws.steps[0].cmdline = "CC  -O2".into();
             out.push(Template {
                 name: if msvc { "msvc-chain" } else { "depfile-chain" },
-                variants: vec![base, v_cmd, v_extra, v_reorder, v_newin, v_default, v_noreport, v_notool],
+                variants: vec![base, v_cmd, v_extra, v_reorder, v_newin, v_default, v_noreport, v_notool, v_cmd_ws],
                 manifest_name: "build.ninja".into(),
                 headers: vec!["hdr.h".into(), "hdr2.h".into()],
                 reports: [("obj".to_string(), vec!["hdr.h".to_string()])].into_iter().collect(),
@@ -343,6 +355,34 @@ pub fn templates() -> Vec<Template> {
         });
     }
 
+    // 4c. one compile step with dozens of long-named headers: its log records
+    //     fill more than one 8 KiB read buffer of the log reader
+    {
+        let mut obj = st("obj", "CC", vec![e("src.c")]);
+        obj.depfile = Some("obj.d".into());
+        let base = Project {
+            steps: vec![obj, st("bin", "LD", vec![e("obj")])],
+            ..Default::default()
+        };
+        let headers = wide_headers(42);
+        out.push(Template {
+            name: "wide-headers",
+            variants: vec![base],
+            manifest_name: "build.ninja".into(),
+            headers: headers.clone(),
+            reports: [("obj".to_string(), headers[..36].to_vec())].into_iter().collect(),
+            report_options: vec![],
+            restat_like: vec![],
+            targets: vec![],
+            fail_cmds: vec![],
+            generator: false,
+            removable_sources: vec![],
+            variant_reports: BTreeMap::new(),
+            skip_outputs: vec![],
+            side_touch: BTreeMap::new(),
+        });
+    }
+
     // 5. response file
     {
         let mk = |content: &str, path: &str| {
@@ -466,20 +506,38 @@ pub fn templates() -> Vec<Template> {
 
     // 7. generator producing the manifest
     for (manifest_name, shared, tname) in [("build.ninja", 1usize, "generator"), ("gen.ninja", 1, "generator-f"), ("build.ninja", 4, "generator-split")] {
-        let variants: Vec<Project> = [0usize, 1, 2, 3, 4, 5, 6, 7, 9, 10].iter().map(|&v| crate::scen::regen_project(manifest_name, shared, v)).collect();
+        let mut variants: Vec<Project> = [0usize, 1, 2, 3, 4, 5, 6, 7, 9, 10].iter().map(|&v| crate::scen::regen_project(manifest_name, shared, v)).collect();
+        // User step c reports a header through a depfile; in the last variant
+        // the generator rewires it to a command without one (the header it used
+        // to report is then nobody's business any more).
+        for p in variants.iter_mut() {
+            if let Some(c) = p.steps.iter_mut().find(|s| s.outs[0] == "c") {
+                c.depfile = Some("c.d".into());
+            }
+        }
+        let mut rewired = variants[0].clone();
+        if let Some(c) = rewired.steps.iter_mut().find(|s| s.outs[0] == "c") {
+            c.cmdline = "C copy".into();
+            c.depfile = None;
+        }
+        variants.push(rewired);
+        let nvar = variants.len();
+        let gen_variant_reports: BTreeMap<usize, BTreeMap<String, Vec<String>>> = (0..nvar)
+            .map(|i| (i, [("c".to_string(), if i + 1 == nvar { Vec::new() } else { vec!["chdr.h".to_string()] })].into_iter().collect()))
+            .collect();
         out.push(Template {
             name: tname,
             variants,
             manifest_name: manifest_name.into(),
-            headers: vec![],
-            reports: BTreeMap::new(),
+            headers: vec!["chdr.h".into()],
+            reports: [("c".to_string(), vec!["chdr.h".to_string()])].into_iter().collect(),
             report_options: vec![],
             restat_like: vec![],
             targets: vec![vec!["b".into()], vec!["c".into()], vec!["newt".into()]],
             fail_cmds: vec!["A".into(), "GEN".into()],
             generator: true,
             removable_sources: vec![],
-            variant_reports: BTreeMap::new(),
+            variant_reports: gen_variant_reports,
             skip_outputs: vec![],
             side_touch: BTreeMap::new(),
         });
@@ -495,6 +553,7 @@ pub fn jobs(prop: &str, tier: Tier) -> Vec<(String, u64)> {
         "C08" => vec!["depfile-chain", "two-outputs", "rspfile", "diamond"],
         "C09" => vec!["depfile-chain", "msvc-chain", "generated-header", "two-generated-headers", "two-outputs", "two-objects", "self-touch"],
         "C17" => vec!["generator", "generator-f", "generator-split"],
+        "C19" if tier == Tier::Quick => vec!["depfile-chain"],
         "C19" => vec!["depfile-chain", "generator"],
         "C15" => vec!["depfile-chain"],
         _ => vec![],
@@ -725,6 +784,7 @@ pub fn apply_edit(t: &Template, node: &mut Node, op: &EditOp) {
             }
         }
         EditOp::GenVariant(i) => {
+            let prev_variant = node.variant;
             node.variant = *i;
             node.sim.touch("gen.in");
             let next = t.variants[*i].clone();
@@ -732,6 +792,17 @@ pub fn apply_edit(t: &Template, node: &mut Node, op: &EditOp) {
             for s in next.sources() {
                 if !node.sim.model.exists(&s) {
                     node.sim.touch(&s);
+                }
+            }
+            // What the rewired commands read changes with the text the
+            // generator is about to write.
+            // (only when a variant with other report settings is entered or
+            // left, so that report edits made in between stay in force)
+            if t.variant_reports.get(i) != t.variant_reports.get(&prev_variant) {
+                if let Some(r) = t.variant_reports.get(i) {
+                    for (k, v) in r {
+                        node.sim.reports.insert(k.clone(), v.clone());
+                    }
                 }
             }
             for f in generated_manifest_files(t, &next) {
@@ -770,6 +841,9 @@ pub fn inv_alphabet(t: &Template, round: usize, full: bool) -> Vec<Inv> {
     v.push(Inv::Kill(1, false));
     v.push(Inv::Kill(1, true));
     v.push(Inv::Kill(2, true));
+    if round == 0 {
+        v.push(Inv::Torn);
+    }
     v.push(Inv::Restat(vec![]));
     // restat tolerates names it does not know (CMake passes such)
     v.push(Inv::Restat(vec!["nosuch.file".into()]));
@@ -1220,6 +1294,32 @@ impl<'a> Walk<'a> {
                                 next_sim.model.files.insert(o, FileInfo { mtime: tick, tag: 1 });
                             }
                         }
+                    }
+                }
+            }
+            Inv::Torn => {
+                // Learn the log writes of this build, then repeat it with the
+                // last write cut in half.
+                let (base, _) = run_once_fault(t, before.clone(), &[], 1, None, false, vec![], None, None);
+                let writes = crate::eng_crash::writes_of(&base.trace);
+                exec::restore(&node.snap);
+                if writes.is_empty() {
+                    // nothing is logged by this build: it is an ordinary one
+                    let (run, _) = run_once(t, before.clone(), &[], 1, None, false, vec![], None);
+                    self.count(&run);
+                    let f = judge(t, &before, &run, &[], true, false);
+                    self.report(f, "build");
+                    next_sim = run.sim;
+                } else {
+                    let i = writes.len() - 1;
+                    let k = writes[i].len / 2;
+                    let (run, _) = run_once_fault(t, before.clone(), &[], 1, None, false, vec![], None, Some((i, k)));
+                    self.count(&run);
+                    let f = judge(t, &before, &run, &[], false, false);
+                    self.report(f, "build that died while appending to the log");
+                    next_sim = run.sim;
+                    if matches!(run.result, BuildResult::Crashed) {
+                        crate::eng_crash::correct_model(&mut next_sim, &writes, i, k);
                     }
                 }
             }
